@@ -47,14 +47,14 @@ namespace XsVerif.CM
 open XsVerif.Wildcard XsVerif.Rx
 
 /-- what the theorem assumes about the context of a flat choice of plain element particles
-    (XSD 1.0, elements without substitution groups): the lookups of the port return the data of the
+    (either XSD version, elements without substitution groups): the lookups of the port return the data of the
     items -/
 structure FlatCtx (M : Ctx) (r : Nat) (items : List FItem) : Prop where
-  v10 : M.v11 = false
   rootChoice : (M.node r).kind = .choice
   elem : ∀ it ∈ items, M.isElem it.id = true
   name : ∀ it ∈ items, (M.info it.id).name = it.name
   plain : ∀ it ∈ items, (M.info it.id).sgHead = none
+  nosubs : ∀ it ∈ items, (M.info it.id).subs = []
   ids : items.Pairwise fun a b => a.id ≠ b.id
 
 variable {M : Ctx} {r : Nat} {items : List FItem}
@@ -64,14 +64,22 @@ def entryOf (M : Ctx) (r : Nat) (it : FItem) : Entry := ⟨M.key it.id, it.id, [
 theorem FlatCtx.key (h : FlatCtx M r items) {it : FItem} (hit : it ∈ items) : M.key it.id = some it.name := by
   rw [key_elem M (h.elem it hit), h.name it hit]
 
+theorem FlatCtx.notAny (h : FlatCtx M r items) {it : FItem} (hit : it ∈ items) : M.isAny it.id = false := by
+  have := h.elem it hit
+  simp only [Ctx.isElem, beq_iff_eq] at this
+  simp [Ctx.isAny, this]
+
 theorem FlatCtx.overlap (h : FlatCtx M r items) {it jt : FItem} (hit : it ∈ items) (hjt : jt ∈ items) :
     M.overlap jt.id it.id = (jt.name == it.name) := by
-  simp [Ctx.overlap, h.elem it hit, h.elem jt hjt, Ctx.overlapEE, h.v10, h.name it hit, h.name jt hjt,
-    h.plain it hit, h.plain jt hjt]
+  cases hv : M.v11 <;>
+    simp [Ctx.overlap, h.elem it hit, h.elem jt hjt, Ctx.overlapEE, hv, h.name it hit, h.name jt hjt,
+      h.plain it hit, h.plain jt hjt, h.nosubs it hit, h.nosubs jt hjt]
 
 theorem FlatCtx.consistent_ne (h : FlatCtx M r items) {it jt : FItem} (hit : it ∈ items) (hjt : jt ∈ items)
     (hne : jt.name ≠ it.name) : M.consistent it.id jt.id = true := by
-  simp [Ctx.consistent, h.elem it hit, h.elem jt hjt, h.v10, h.name it hit, h.name jt hjt, Ne.symm hne]
+  cases hv : M.v11 <;>
+    simp [Ctx.consistent, h.elem it hit, h.elem jt hjt, hv, h.name it hit, h.name jt hjt, Ne.symm hne,
+      h.nosubs it hit, h.nosubs jt hjt]
 
 /-- no earlier particle has the name of `it`: the inner loop raises nothing -/
 theorem against_flat_none (h : FlatCtx M r items) {it : FItem} (hit : it ∈ items) :
@@ -106,8 +114,10 @@ theorem against_flat_some (h : FlatCtx M r items) {it : FItem} (hit : it ∈ ite
     by_cases hn : jt.name = it.name
     · by_cases hc : M.consistent it.id jt.id = true
       · have hov : M.overlap jt.id it.id = true := by rw [h.overlap hit hjt]; simp [hn]
+        have ha1 : M.isAny it.id = false := h.notAny hit
+        have ha2 : M.isAny jt.id = false := h.notAny hjt
         have hs1 : M.stage1 it.id [r] jt.id [r] acc = .error (.sameGroup jt.id it.id) := by
-          simp [Ctx.stage1, h.rootChoice, h.v10]
+          simp [Ctx.stage1, h.rootChoice, ha1, ha2]
         simp [entryOf, hc, hov, hid, Ctx.upaStep, hs1]
       · simp [entryOf, hc]
     · have hex' : ∃ kt ∈ rest, kt.name = it.name := by
